@@ -9,52 +9,68 @@ let tag_of = function
   | "scope" -> UmlSem.TScope | "doc" -> UmlSem.TDoc | "child" -> UmlSem.TChild | "type" -> UmlSem.TType | "typestring" -> UmlSem.TTypeString
   | "dir" -> UmlSem.TDir | "default" -> UmlSem.TDefault | "mult" -> UmlSem.TMult | "init" -> UmlSem.TInit | "setter" -> UmlSem.TSetter
   | "getter" -> UmlSem.TGetter | "readonly" -> UmlSem.TReadOnly | "stereo" -> UmlSem.TStereo | "from" -> UmlSem.TFrom | "to" -> UmlSem.TTo
+  | "agg" -> UmlSem.TAgg
   | s -> failwith ("tag " ^ s)
 let slot v = match lst v with
   | [k; a; b] when str k = "N" -> UmlSem.SNoise (str a, str b)
   | [k; t] when str k = "T" -> UmlSem.STag (tag_of (str t))
+  | [k; it] when str k = "I" -> UmlSem.SInert (Cmds_zumlblob.witem it)
   | _ -> failwith "slot"
 let layout v = List.map slot (lst v)
 
+let sdoc v = match lst v with
+  | [k; t] when str k = "T" -> UmlSem.DText (str t)
+  | [k; t] when str k = "R" -> UmlSem.DRaw (str t)
+  | _ -> failwith "sdoc"
 let sparam v = match lst v with
-  | [i; n; basic; ty; dir; md; df; mu; lay] ->
+  | [i; n; basic; ty; dir; md; df; mu; nl; lay] ->
       { UmlSem.sp_id = str i; sp_name = str n; sp_basic = oname basic; sp_type = strs ty;
         sp_dir = (match str dir with "in" -> Some true | "out" -> Some false | _ -> None);
-        sp_mod = str md; sp_default = str df; sp_mult = str mu; sp_layout = layout lay }
+        sp_mod = str md; sp_default = str df; sp_mult = str mu; sp_nl = str nl; sp_layout = layout lay }
   | _ -> failwith "sparam"
 let sop v = match lst v with
-  | [i; n; vis; ret; rm; ab; qu; st; doc; ps; lay] ->
+  | [i; n; vis; ret; rm; ab; qu; st; doc; ps; nl; lay] ->
       { UmlSem.so_id = str i; so_name = str n; so_vis = oname vis; so_ret = strs ret; so_retmod = str rm; so_abstract = ob ab; so_query = ob qu;
-        so_static = ob st; so_doc = str doc; so_params = List.map sparam (lst ps); so_layout = layout lay }
+        so_static = ob st; so_doc = sdoc doc; so_params = List.map sparam (lst ps); so_nl = str nl; so_layout = layout lay }
   | _ -> failwith "sop"
 let sattr v = match lst v with
-  | [i; n; vis; ty; md; mu; doc; ini; se; ge; st; co; lay] ->
-      { UmlSem.sa_id = str i; sa_name = str n; sa_vis = oname vis; sa_type = strs ty; sa_mod = str md; sa_mult = str mu; sa_doc = str doc;
-        sa_init = str ini; sa_setter = ob se; sa_getter = ob ge; sa_static = ob st; sa_const = ob co; sa_layout = layout lay }
+  | [i; n; vis; ty; md; mu; doc; ini; se; ge; st; co; nl; lay] ->
+      { UmlSem.sa_id = str i; sa_name = str n; sa_vis = oname vis; sa_type = strs ty; sa_mod = str md; sa_mult = str mu; sa_doc = sdoc doc;
+        sa_init = str ini; sa_setter = ob se; sa_getter = ob ge; sa_static = ob st; sa_const = ob co; sa_nl = str nl; sa_layout = layout lay }
   | _ -> failwith "sattr"
 let smember v = match lst v with
   | [k; o] when str k = "op" -> UmlSem.MOp (sop o)
   | [k; a] when str k = "attr" -> UmlSem.MAttr (sattr a)
-  | [k; i; n; lay] when str k = "lit" -> UmlSem.MLit (str i, str n, layout lay)
+  | [k; i; n; nl; lay] when str k = "lit" -> UmlSem.MLit (str i, str n, str nl, layout lay)
   | _ -> failwith "smember"
+let send v = match lst v with
+  | [i; n; cl; mu; agg; vis; ge; se; co; nl; lay] ->
+      { UmlSem.se_id = str i; se_name = oname n; se_class = strs cl; se_mult = str mu; se_agg = oname agg; se_vis = oname vis;
+        se_getter = ob ge; se_setter = ob se; se_const = ob co; se_nl = str nl; se_layout = layout lay }
+  | _ -> failwith "send"
 let selem v = match lst v with
+  | [k; x] when str k = "assoc" -> (match lst x with
+      | [i; n; par; doc; fr; t; nl; lay] ->
+          UmlSem.EAssoc { UmlSem.sx_id = str i; sx_name = oname n; sx_parent = oname par; sx_doc = sdoc doc; sx_from = send fr; sx_to = send t; sx_nl = str nl;
+                          sx_layout = layout lay }
+      | _ -> failwith "sassoc")
   | [k; c] when str k = "class" -> (match lst c with
-      | [i; n; par; st; ab; doc; ms; lay] ->
-          UmlSem.EClass { UmlSem.sc_id = str i; sc_name = str n; sc_parent = oname par; sc_stereos = strs st; sc_abstract = ob ab; sc_doc = str doc;
-                          sc_members = List.map smember (lst ms); sc_layout = layout lay }
+      | [i; n; par; st; ab; doc; ms; nl; lay] ->
+          UmlSem.EClass { UmlSem.sc_id = str i; sc_name = str n; sc_parent = oname par; sc_stereos = strs st; sc_abstract = ob ab; sc_doc = sdoc doc;
+                          sc_members = List.map smember (lst ms); sc_nl = str nl; sc_layout = layout lay }
       | _ -> failwith "sclass")
   | [k; p] when str k = "package" -> (match lst p with
-      | [i; n; par; paths; lay] ->
-          UmlSem.EPackage { UmlSem.sk_id = str i; sk_name = str n; sk_parent = oname par; sk_paths = List.map strs (lst paths); sk_layout = layout lay }
+      | [i; n; par; paths; nl; lay] ->
+          UmlSem.EPackage { UmlSem.sk_id = str i; sk_name = str n; sk_parent = oname par; sk_paths = List.map strs (lst paths); sk_nl = str nl; sk_layout = layout lay }
       | _ -> failwith "spackage")
   | [k; x] when str k = "inh" -> (match lst x with
-      | [i; par; real; fr; t; lay] ->
-          UmlSem.EInh { UmlSem.si_id = str i; si_parent = oname par; si_real = ob real; si_from = strs fr; si_to = strs t; si_layout = layout lay }
+      | [i; par; real; fr; t; nl; lay] ->
+          UmlSem.EInh { UmlSem.si_id = str i; si_parent = oname par; si_real = ob real; si_from = strs fr; si_to = strs t; si_nl = str nl; si_layout = layout lay }
       | _ -> failwith "sinh")
-  | [k; i; n; ty; par; lay] when str k = "other" -> UmlSem.EOther (str i, oname n, str ty, oname par, layout lay)
+  | [k; i; n; ty; par; nl; lay] when str k = "other" -> UmlSem.EOther (str i, oname n, str ty, oname par, str nl, layout lay)
   | _ -> failwith "selem"
 let sref v = match lst v with
-  | [i; n; ty; par; lay] -> { UmlSem.sr_id = str i; sr_name = str n; sr_type = str ty; sr_parent = oname par; sr_noise = layout lay }
+  | [i; n; ty; par; nl; lay] -> { UmlSem.sr_id = str i; sr_name = str n; sr_type = str ty; sr_parent = oname par; sr_nl = str nl; sr_noise = layout lay }
   | _ -> failwith "sref"
 let sdiagram v = match lst v with
   | [i; n; shapes; refs] ->
@@ -63,7 +79,54 @@ let sdiagram v = match lst v with
         sd_refd = List.map sref (lst refs) }
   | _ -> failwith "sdiagram"
 
+(* diagnosis: which shapes / members / referenced elements are outside the domain *)
+let why s =
+  let d = sdiagram s in
+  let bad = ref [] in
+  let note id what ok = if not ok then bad := L [S id; S what] :: !bad in
+  List.iter (fun (_, e) -> match e with
+    | UmlSem.EClass c ->
+        note c.UmlSem.sc_id "class" (UmlSem.class_ok d c);
+        List.iter (fun m -> match m with
+          | UmlSem.MOp o -> note o.UmlSem.so_id "operation" (UmlSem.op_ok d o);
+              List.iter (fun p -> note p.UmlSem.sp_id "parameter" (UmlSem.param_ok d p)) o.UmlSem.so_params
+          | UmlSem.MAttr a -> note a.UmlSem.sa_id "attribute" (UmlSem.attr_ok d a)
+          | UmlSem.MLit (i, _, _, _) -> note i "literal" (UmlSem.member_ok d m)) c.UmlSem.sc_members
+    | UmlSem.EPackage p -> note p.UmlSem.sk_id "package" (UmlSem.package_ok d p)
+    | UmlSem.EInh i -> note i.UmlSem.si_id "inheritance" (UmlSem.inh_ok d i)
+    | UmlSem.EAssoc x -> note x.UmlSem.sx_id "association" (UmlSem.assoc_ok d x);
+        note x.UmlSem.sx_from.UmlSem.se_id "from-end" (UmlSem.end_ok d true x.UmlSem.sx_from);
+        note x.UmlSem.sx_to.UmlSem.se_id "to-end" (UmlSem.end_ok d false x.UmlSem.sx_to)
+    | UmlSem.EOther _ -> ()) d.UmlSem.sd_shapes;
+  L (List.rev !bad)
+
+let lay_why k f l =
+  let bad = ref [] in
+  if not (UmlSem.layout_ok f l) then bad := S "layout_ok" :: !bad;
+  List.iter (fun sl -> match sl with
+    | UmlSem.SInert it -> if not (UmlSem.inert_ok k it) then
+        bad := L [S "inert"; S (UmlWriter.print_item it); vbool (UmlSem.item_text_ok it); L (List.map (fun x -> S x) (UmlSem.item_keys it))] :: !bad
+    | _ -> ()) l;
+  L (List.rev !bad)
+let why2 s i =
+  let d = sdiagram s in
+  let out = ref (L []) in
+  let chk id k f l = if id = i then out := lay_why k f l in
+  List.iter (fun (_, e) -> match e with
+    | UmlSem.EClass c ->
+        chk c.UmlSem.sc_id UmlSem.KClass (UmlSem.class_item c) c.UmlSem.sc_layout;
+        List.iter (fun m -> match m with
+          | UmlSem.MOp o -> chk o.UmlSem.so_id UmlSem.KOp (UmlSem.op_item o) o.UmlSem.so_layout;
+              List.iter (fun p -> chk p.UmlSem.sp_id UmlSem.KParam (UmlSem.param_item p) p.UmlSem.sp_layout) o.UmlSem.so_params
+          | UmlSem.MAttr a -> chk a.UmlSem.sa_id UmlSem.KAttr (UmlSem.attr_item a) a.UmlSem.sa_layout
+          | _ -> ()) c.UmlSem.sc_members
+    | UmlSem.EAssoc x -> chk x.UmlSem.sx_id UmlSem.KAssoc (UmlSem.assoc_item x) x.UmlSem.sx_layout
+    | _ -> ()) d.UmlSem.sd_shapes;
+  !out
+
 let () =
+  register "us_why2" (function [s; i] -> why2 s (str i) | _ -> failwith "arity");
+  register "us_why" (function [s] -> why s | _ -> failwith "arity");
   register "us_ok" (function [s] -> vbool (UmlSem.sdiagram_ok (sdiagram s)) | _ -> failwith "arity");
   register "us_encode" (function [s] -> Cmds_vpp.vdb (UmlSem.encode_project (sdiagram s)) | _ -> failwith "arity");
   register "us_rdiagram" (function [s] -> Cmds_zumlblob.vrdiagram (UmlSem.rdiagram_of (sdiagram s)) | _ -> failwith "arity");
